@@ -896,11 +896,12 @@ pub fn pattern_condition_family(nm: &Names) -> Vec<F> {
 }
 
 /// Two-operator nests: every binary operator over every unary operator in either operand position
-/// (leaves: the propositions and True), and the same with a state variable / a closed fixed-point
+/// (leaves: the propositions, True and False), and the same with a state variable / a closed fixed-point
 /// sub-formula as the inner operand. 4..7 nodes; systematic, not sampled.
 pub fn op_nest_family(nprops: u8) -> Vec<F> {
     let mut leaves: Vec<F> = (0..nprops.min(2)).map(F::Prop).collect();
     leaves.push(F::Const(true));
+    leaves.push(F::Const(false));
     let a = |x: F| Arc::new(x);
     let mut out = vec![];
     for bi in ALL_BI {
